@@ -2,7 +2,7 @@
 import copy
 from typing import Any, Dict, List, Tuple
 
-from vkit import gen, prog, runner
+from vkit import gen, probe, prog, runner
 from vkit.checks import c02, c04
 from vkit.model import Model
 
@@ -36,7 +36,7 @@ def asyncify(spec: Dict[str, Any], rng, convert_forms: bool) -> Dict[str, Any]:
                     if dk in ("pre", "post") and rng.random() < 0.4:
                         # coroutine conditions cannot be re-computed: they need an explicit error (documented)
                         if c.get("err", "default") in ("instance", "factory", "method"):
-                            c["form"] = rng.choice(("adef", "aw"))
+                            c["form"] = rng.choice(("adef", "aw", "awo"))
                     if dk == "snap" and rng.random() < 0.4:
                         c["form"] = rng.choice(("adef", "aw"))
 
@@ -69,7 +69,7 @@ def compare_pair(w, sync_l, async_l, model_s: Model, model_a: Model, contracts_s
     ks, ka = obs_s.keys(), obs_a.keys()
     w.count("pairs_compared")
     w.count("events_compared", len(ks))
-    n_forms = sum(1 for e in ka if e[0] in ("cond", "snap") and contracts_a.get(e[1], {}).get("form") in ("adef", "aw"))
+    n_forms = sum(1 for e in ka if e[0] in ("cond", "snap") and contracts_a.get(e[1], {}).get("form") in ("adef", "aw", "awo"))
     w.count("async_condition_forms_exercised", n_forms)
     w.case((meta, call.get("name") or (call.get("cls"), call.get("key")), tuple(sorted((k, str(v)) for k, v in call.get("truth", {}).items())),
             str(sorted(call.get("body", {}).items()))) if any(k[0] in ("cond", "snap", "inv") for k in ks) else None)
@@ -86,6 +86,13 @@ def compare_pair(w, sync_l, async_l, model_s: Model, model_a: Model, contracts_s
             out.append(k)
             prev = k
         return out
+    awo_ids = {cid for cid, c in contracts_a.items() if c.get("form") == "awo"}
+    not_awaited = [k for k in ks if k[0] == "cond" and k[1] in awo_ids and k not in ka]
+    if not_awaited:
+        # mechanism: only coroutine objects are awaited; another awaitable returned by a condition is judged as an object (truthy)
+        w.violation("C13/awaitable-object-condition-not-awaited", "condition {} of the async callable returns an awaitable object which is not a "
+                    "coroutine; it was not awaited (its verdict was never obtained)".format(not_awaited[0][1]), case, detail)
+        return
     if norm(ks, contracts_s) != norm(ka, contracts_a):
         i = 0
         a, b = norm(ks, contracts_s), norm(ka, contracts_a)
@@ -190,6 +197,67 @@ def run_async_on_sync(w) -> None:
         loaded.unload()
 
 
+INV_SOURCE = '''
+import icontract
+
+async def averdict(tag):
+    HUB.log("averdict", tag, None, None)
+    return False
+
+{deco}
+class K{base}:
+    def __init__(self):
+        self.x = 1
+    def m(self):
+        return "m"
+    async def am(self):
+        return "am"
+'''
+
+INV_DECOS = {
+    "lambda-returning-coroutine": "@icontract.invariant(lambda self: averdict('i'))",
+    "lambda-returning-coroutine-with-error": "@icontract.invariant(lambda self: averdict('i'), error=lambda self: KeyError('inv'))",
+    "lambda-without-self-returning-coroutine": "@icontract.invariant(lambda: averdict('i'))",
+}
+
+
+def run_coroutine_invariants(w) -> None:
+    """An invariant condition is evaluated synchronously: a coroutine it returns must be rejected, never taken as truthy."""
+    import warnings  # pylint: disable=import-outside-toplevel
+
+    for tag, deco in INV_DECOS.items():
+        for base in ("", "(icontract.DBC)"):
+            case = {"coroutine_invariant": tag, "base": base}
+            w.count("async_on_sync_rejections")
+            w.case(("coroutine-invariant", tag, base))
+            with warnings.catch_warnings():
+                warnings.simplefilter("ignore", RuntimeWarning)
+                loaded = prog.load_source(INV_SOURCE.format(deco=deco, base=base), w.scratch())
+                try:
+                    outcomes = []
+                    obj = None
+                    try:
+                        obj = loaded.module.K()
+                        outcomes.append(("construct", "returned"))
+                    except BaseException as err:  # pylint: disable=broad-except
+                        outcomes.append(("construct", type(err).__name__))
+                    if obj is not None:
+                        for name in ("m", "am"):
+                            try:
+                                res = getattr(obj, name)()
+                                if name == "am":
+                                    res = probe.drive(res)
+                                outcomes.append((name, "returned"))
+                            except BaseException as err:  # pylint: disable=broad-except
+                                outcomes.append((name, type(err).__name__))
+                    if outcomes[0] != ("construct", "ValueError"):
+                        w.violation("C13/coroutine-from-invariant-taken-as-truthy",
+                                    "invariant {} ({}): the condition returns a coroutine (whose verdict would be False); outcomes {} - expected "
+                                    "ValueError at the first evaluation".format(tag, base or "plain class", outcomes), case)
+                finally:
+                    loaded.unload()
+
+
 def specs(w):
     rng = w.rng
     thorough = w.tier == "thorough"
@@ -213,8 +281,9 @@ def specs(w):
                 if idx % w.nshards != w.shard:
                     continue
                 ids = gen.Ids()
-                yield (str(shape), kind), gen.hier_program(ids, rng, shape, kind, False, inv_prob=0.4 if kind == "method" else 0.1,
-                                                           max_conj=4 if thorough else 3, avoid_mixed=True, forms=["def", "lambda"])
+                yield (str(shape), kind), gen.hier_program(ids, rng, shape, kind, False, inv_prob=0.5 if kind == "method" else 0.1,
+                                                           max_conj=4 if thorough else 3, avoid_mixed=True, forms=["def", "lambda"],
+                                                           inv_check_ons=("CALL", "DEFAULT", "SETATTR", "ALL"))
 
 
 def run(w) -> None:
@@ -223,10 +292,14 @@ def run(w) -> None:
         run_pair(w, spec, meta)
     if w.shard == 0:
         run_async_on_sync(w)
+        run_coroutine_invariants(w)
     w.exhaustive = False
 
 
 def replay(case, w) -> None:
+    if "coroutine_invariant" in case:
+        run_coroutine_invariants(w)
+        return
     if "async_prog" not in case:
         run_async_on_sync(w)
         return
